@@ -33,7 +33,8 @@ Inductive exc :=
 | ERecursion (* fuel exhausted = RecursionError *)
 | EException (* plain Exception: wait outside a routine, FlowVar rebind *)
 | EBadId (* not a routine / cell of the program: never generated *)
-| EUnmodelled.
+| EUnmodelled
+| EBase (* a BaseException that is not an Exception: KeyboardInterrupt, SystemExit, GeneratorExit, user class *).
 Inductive outcome := Ret (v : val) | Exc (e : exc).
 Inductive tid := Main | R (i : nat).
 
@@ -52,7 +53,9 @@ Inductive act :=
 | ACall (c : call) (catch : bool) (* try: log(c()) except Exception as e: log(e)   |   log(c()) *)
 | AWait (c : nat)                (* yield from cond.wait()  /  first half of  yield from flowvar.value *)
 | AFlowLog (c : nat)             (* second half: log(flowvar._value) *)
-| ALog (v : val).                (* log(v, main.current_tt is self, self.state, self._seconds) *)
+| ALog (v : val)                 (* log(v, main.current_tt is self, self.state, self._seconds) *)
+| ARaiseBase                     (* raise a BaseException that is not an Exception *)
+| ARelay (r : nat) (v : val).    (* x = yield r.next(v); log x   -- hands a nested routine's value (e.g. 'hang') on *)
 
 Record rdef := mkDef { d_kind : kind; d_hasin : bool; d_script : list act }.
 
@@ -279,6 +282,9 @@ Definition escape (k : kind) (e : exc) : exc :=
   | _, _ => e
   end.
 
+(* "except Exception" in a body catches everything but BaseException-only classes *)
+Definition catchable (e : exc) : bool := match e with EBase => false | _ => true end.
+
 Definition log_self (self : nat) (v : val) (w : world) : world :=
   match nth_error (rts w) self with
   | None => w
@@ -331,7 +337,7 @@ Fixpoint exec (self : nat) (k : kind) (acts : list act) (pc : nat) (w : world) :
       match o with
       | Ret _ => exec self k rest (S pc) (add_log self (EvCall c o) w1)
       | Exc e =>
-        if catch then exec self k rest (S pc) (add_log self (EvCall c o) w1)
+        if catch && catchable e then exec self k rest (S pc) (add_log self (EvCall c o) w1)
         else (w1, BRaise (escape k e))
       end
     | AWait c =>
@@ -350,6 +356,17 @@ Fixpoint exec (self : nat) (k : kind) (acts : list act) (pc : nat) (w : world) :
             | None => w
             end)
     | ALog v => exec self k rest (S pc) (log_self self v w)
+    | ARaiseBase => (w, BRaise EBase)
+    | ARelay r v =>
+      match k with
+      | Fn => exec self k rest (S pc) w
+      | Gen =>
+        let '(w1, o) := call_next r v w in
+        match o with
+        | Ret u => (w1, BYield u (S pc))
+        | Exc e => (w1, BRaise (escape k e))
+        end
+      end
     end
   end.
 
@@ -414,6 +431,7 @@ Definition next_run (r : nat) (inval : val) (w : world) (x : rt) : world * outco
             let w2' := match iter x with
                        | Some _ => match nth_error (d_script d) (pred pc) with
                                    | Some (AYield _) => add_log r (EvRecv inval) w2
+                                   | Some (ARelay _ _) => add_log r (EvRecv inval) w2
                                    | _ => w2
                                    end
                        | None => if d_hasin d then add_log r (EvArg inval) w2 else w2
@@ -494,7 +512,7 @@ Definition enc_val (v : val) : list Z :=
 Definition enc_exc (e : exc) : Z :=
   match e with
   | EStopStream => 1 | EPausedStream => 2 | ERoutine => 3 | EValue => 4 | ERuntime => 5 | EUser => 6
-  | EAttribute => 7 | ERecursion => 8 | EException => 9 | EBadId => 10 | EUnmodelled => 11
+  | EAttribute => 7 | ERecursion => 8 | EException => 9 | EBadId => 10 | EUnmodelled => 11 | EBase => 12
   end.
 Definition enc_outcome (o : outcome) : list Z :=
   match o with Ret v => 0 :: enc_val v | Exc e => [1; enc_exc e] end.
